@@ -710,6 +710,78 @@ def signed_literal_docs(st, rng, limit=None):
     return docs
 
 
+
+CHAIN_LEVELS = [["+", "-"], ["*", "/", "mod"], ["^"]]
+CHAIN_KINDS = ["id", "pos", "neg", "par"]
+
+
+def chain_equations(rng, quick):
+    """operator chains on ONE precedence level: every pair (length 3) / triple (length 4) of operators of the level and every
+    operand pattern over {identifier, positive literal, negative literal, parenthesised term}, so that two numeric literals are
+    neighbours after - / ^ MOD at the start, in the middle and at the end of a chain (the PEG nests chains to the right: the IR of
+    `a - 1 + 2` is -(a, +(1, 2)); whatever the generator does with an inner literal-literal node must not regroup the chain).
+    Spelled with blanks, without blanks and with redundant parentheses around a literal."""
+    import itertools
+    ids, poss, negs = ["a", "b"], ["3", "2", "4", "1.5"], ["-2", "-3", "-1.5"]
+    pars = ["(b - 1)", "(2)", "(-3)", "( a / 2 )", "(1 + 2)"]
+    out, n = [], 0
+    for ops_level in CHAIN_LEVELS:
+        for length in (3, 4):
+            for ops in itertools.product(ops_level, repeat=length - 1):
+                pats = list(itertools.product(CHAIN_KINDS, repeat=length))
+                # the patterns with two neighbouring literals are the core; the others are sampled (all of them in thorough for length 3)
+                lit = lambda k: k in ("pos", "neg")
+                core = [p for p in pats if any(lit(p[i]) and lit(p[i + 1]) for i in range(length - 1))]
+                rest = [p for p in pats if p not in core]
+                if length == 3:
+                    pats = core + (rng.shuffle(rest)[:2] if quick else rest)          # quick: 24 + 2 per operator pair
+                else:
+                    pats = rng.shuffle(core)[:3] if quick else core + rng.shuffle(rest)[:8]
+                for pat in pats:
+                    n += 1
+                    opd = []
+                    for j, k in enumerate(pat):
+                        v = {"id": ids, "pos": poss, "neg": negs, "par": pars}[k]
+                        opd.append(v[(n + j) % len(v)])
+                    style = n % 3
+                    parts = [opd[0]]
+                    for o, x in zip(ops, opd[1:]):
+                        word = o == "mod"
+                        if style == 1 and not word:
+                            parts.append(o + x)                      # no blanks: a-1+2, a--2
+                        elif style == 2 and x[0] not in "(-":
+                            parts.append(f" {o} ({x})")              # redundant parentheses around the operand
+                        else:
+                            parts.append(f" {o} {x}")
+                    out.append("".join(parts))
+    # the forms named in the seed report, verbatim, and the same chains as operands / arguments / branches
+    out += ["a - 1 + 2", "a / 2 * 4", "a - 3 - 2", "10 - 3 - 2", "-2 + 2", "a - 1 - 2 + b", "b * (a - 1 + 2)", "ABS(a - 1 + 2)",
+            "IF a > 1 THEN a - 1 + 2 ELSE a / 2 * 4", "MAX(a / 2 / 4, 10 - 3 - 2)", "a mod 4 mod 3", "100 mod 7 mod 4", "a - 2 * 3 - 4 / 2 / 2",
+            "2 ^ 3 ^ 2", "a ^ 2 ^ 2", "64 / 4 / 2 / 2", "a - 1 + 2 - 3 + 4", "1 - 2 - 3 - a", "a * 2 / 4 * 8 / 16"]
+    seen, uniq = set(), []
+    for e in out:
+        if e not in seen:
+            seen.add(e); uniq.append(e)
+    return uniq
+
+
+def chain_docs(st, rng, quick):
+    ok = []
+    for e in chain_equations(rng, quick):
+        rej = peg_rejects(e)
+        if rej is None:
+            ok.append(e)
+        else:
+            st.setdefault("chain_peg_rejected", []).append(e)
+    st["chain_equations"] = len(ok)
+    docs = []
+    for i in range(0, len(ok), 10):
+        spec = [(0.0, 4.0, 1.0, "1"), (1.0, 5.0, 1.0, "1")][(i // 10) % 2]
+        named = [("a", "7"), ("b", "3")] + [(f"ch {i + j}", e) for j, e in enumerate(ok[i:i + 10])]
+        docs.append((doc_xml(named, spec), named, spec))
+    return docs
+
+
 def xml_escape(s):
     return s.replace("&", "&amp;").replace("<", "&lt;").replace(">", "&gt;").replace('"', "&quot;")
 
@@ -1067,7 +1139,7 @@ def run(chk):
                 corr = ("sanitize", s, f"model {model!r}", f"impl {real!r}")
         chk.cov["names_compared"] = len(name_cases)
         # name resolution table needs the model's sanitize of every declared name: one driver call per batch
-        docs = signed_literal_docs(stats, rng) + [make_doc(rng, stats) for _ in range(ndocs)]
+        docs = chain_docs(stats, rng, chk.quick) + signed_literal_docs(stats, rng) + [make_doc(rng, stats) for _ in range(ndocs)]
         decl = sorted({n for _, eqs, _ in docs for n, _ in eqs})
         sres = drive("C03", ["san " + ",".join(str(ord(ch)) for ch in ("." + n.lower()))for n in decl])
         pyname = {n: "".join(chr(int(x)) for x in r[4:].split(",") if x) for n, r in zip(decl, sres)}
@@ -1178,7 +1250,9 @@ def run(chk):
                        "real text = text of the reading, text parses to the image of the reading — Lean parser and ast.parse), reference parsers agree; "
                        "per variable × 4 times: real value = independent XMILE evaluator; 12 unsupported forms must raise; sanitizeName model vs code on "
                        "random ASCII names. Systematic: a signed literal, parenthesised and bare, at every operand position of every operator and vocabulary builtin "
-                       "(~550 equations, both tiers). Delay/smooth family: lattice dt × start × input stream, every builtin at every grid point ascending on one instance and "
+                       "(~550 equations, both tiers); operator chains on one precedence level: every operator pair/triple × operand patterns over {identifier, "
+                       "positive literal, negative literal, parenthesised term} of length 3-4, literal-literal neighbours after - / ^ MOD at start, middle, end, "
+                       "spelled with / without blanks and with redundant parentheses (~490 quick, ~3 300 thorough). Delay/smooth family: lattice dt × start × input stream, every builtin at every grid point ascending on one instance and "
                        "at two late points on fresh instances, against the cascade / shift / difference-quotient definitions on grid indices. "
                        "distinct = canonical input; non-trivial = more than 3 tokens / name with separator or quote characters")
     # ---------------- decide
